@@ -191,6 +191,7 @@ def c18_parts(tier, seed):
         P("byte-corruptions", T, "seq", ["--part", "bytes"], require=["nontrivial"]),
         P("permutations", T, "seq", ["--part", "perm"], require=["nontrivial"]),
         P("builtin", T, "seq", ["--part", "builtin"], require=["nontrivial"]),
+        P("legalmoves", T, "seq", ["--part", "legalmoves"], require=["nontrivial"]),
     ]
 
 CHECKS["C18"] = dict(
@@ -199,9 +200,10 @@ CHECKS["C18"] = dict(
          "permutation of four well-formed 8-entry books; every position along every built-in book line); transitions = getBookMove calls (one per RNG outcome); "
          "non-trivial = the probe returned a move for at least one RNG outcome",
     alphabet="book sources: built-in book, polyglot files in memory (memfd); faults: truncation to every length, head cuts, every single-byte substitution, all 8! entry orders, "
-             "missing file; environment: every outcome of Random::nextInt (scripted through ld --wrap)",
+             "missing file; environment: every outcome of Random::nextInt (scripted through ld --wrap); legalmoves: every legal move of ~950 positions (castling-ready, queen / rook on e1/e8 "
+             "with the king elsewhere, promotions, en passant, all nodes within 1 ply of the 30 seeds) stored alone under the position's key, encoded by the harness from the format description",
     oracle="result is the empty move or legal per the independent oracle; well-formed book: result in the moves stored under key(P), every positive-weight move returned for some r, "
-           "zero-weight moves never; built-in book: result in the stored entries and every entry reachable",
+           "zero-weight moves never; built-in book: result in the stored entries and every entry reachable; legalmoves: the probe returns exactly the stored move",
     bound=dict(quick="complete (same as thorough)", thorough="complete"),
     assumptions=["for corrupted weight bytes (sum of weights > 4096) outcomes are enumerated by bisection over r plus the first/last 64 values, assuming selection is monotone in r"],
     technique="exhaustive fault enumeration (every truncation / byte corruption / permutation) and exhaustive environment enumeration (every RNG outcome) on the real book probe",
@@ -218,6 +220,7 @@ def c19_parts(tier, seed):
         P("from-empty-import", T, "seq", ["--part", "empty", "--alpha", "small", "--depth", 4 if q else 6, "--import", 1], require=["saveloads"], deadline_frac=0.9),
         P("from-diamond", T, "seq", ["--part", "diamond", "--alpha", "small" if q else "medium", "--depth", 4 if q else 5], require=["nontrivial"], deadline_frac=0.9),
         P("from-forced-line", T, "seq", ["--part", "forced", "--depth", 4 if q else 5], require=["states"], deadline_frac=0.9),
+        P("from-clock-twins", T, "fast", ["--part", "twins", "--depth", 3 if q else 4], require=["states", "nontrivial"], deadline_frac=0.9),
     ] + ([] if q else [P("from-empty-medium", T, "seq", ["--part", "empty", "--alpha", "medium", "--depth", 6], require=["nontrivial"], deadline_frac=0.9)])
 
 CHECKS["C19"] = dict(
@@ -226,15 +229,16 @@ CHECKS["C19"] = dict(
          "the split level; transitions = operations applied (each on a fresh book rebuilt from its history); a state is non-trivial when some node has >= 2 parents",
     alphabet="add position under any node x move alphabet (e3/e4/e6/e5 [+d3/d6, Nf3/Nf6]: transpositions with equal and different path lengths), set search result x scores "
              "{-50,0,30[,mates]} x {no non-book move (IGNORE), non-book best move, book best move}, pending mark toggle, import of 3 small game trees, save + reload; "
-             "start states: empty book, a 2/4-ply transposition diamond, a forced-move line (1.e4 f6 2.Qh5+ g6) where IGNORE results are valid",
+             "start states: empty book, a 2/4-ply transposition diamond, a forced-move line (1.e4 f6 2.Qh5+ g6) where IGNORE results are valid, and 'clock twins' (1.e3 e6 2.Nf3 / 1.Nf3 e6 2.e3: "
+             "equal placement, different half-move clock, hence two nodes from which the same move leads to one child)",
     oracle="from-scratch reference on the whole graph in every state: links from legal moves, depth = BFS distance, negamax, expansion costs (white/black), path errors, "
            "parent/child symmetry; save+reload reproduces primary data and all derived values of the same history without pending marks",
-    bound=dict(quick="depth 6 from the empty book (small alphabet), depth 4 from the diamond and from the forced line", thorough="depth 8 / 5 / 5 plus medium alphabet depth 6, under the deadline"),
+    bound=dict(quick="depth 6 from the empty book (small alphabet), depth 4 from the diamond and from the forced line, depth 3 from the clock twins", thorough="depth 8 / 5 / 5 plus medium alphabet depth 6, under the deadline"),
     assumptions=["derived fields are excluded from the canonical key because the property says they are functions of the primary data; states merged by the key have equal futures under that assumption, "
                  "and every state's derived values are checked against the reference before merging",
                  "search results stay in the documented domain (IGNORE only when every legal move is a valid book node)"],
     technique="explicit-state breadth-first search over operation histories of the real book object with canonical-state deduplication and a from-scratch reference model",
-    level_text="All operation histories up to the depth bound over the stated alphabet, from three start states, are executed on the real BookBuild::Book; every reached state is compared with a from-scratch fixed point.",
+    level_text="All operation histories up to the depth bound over the stated alphabet, from four start states, are executed on the real BookBuild::Book; every reached state is compared with a from-scratch fixed point.",
     level_note="Trusted: the reference transcription of the header's equations; books larger than ~8 nodes are not reached.",
 )
 
